@@ -498,6 +498,7 @@ def _render_loop(v):
     yield "every-part-fits-its-width", fo["ok"]
     shown, cx, cy = _focus_cursor(old, geo, focus, i)
     yield "cursor-so-far-is-the-focus-childs-shifted", both(eq(fo["has"], shown), implies(shown, both(fo["cx"] == cx + X(fp), fo["cy"] == cy)))
+    yield "cursor-so-far-lies-inside-the-join", implies(fo["has"], both(0 <= fo["cx"], fo["cx"] < fo["cols"], 0 <= fo["cy"], fo["cy"] < fo["rows"]))
     mark = v.trace_mark_
     if mark is not None:
         rc = [e for e in st.trace[mark:] if e[0] == "call" and e[2] == "render"]
